@@ -6,6 +6,7 @@ package main
 import (
 	"bytes"
 	"context"
+	"encoding/json"
 	"errors"
 	"fmt"
 	"io"
@@ -16,8 +17,11 @@ import (
 	"path/filepath"
 	"runtime"
 	"strconv"
+	"strings"
 	"syscall"
 	"time"
+
+	"github.com/safing/jess"
 
 	"github.com/safing/portbase/database/record"
 	"github.com/safing/portbase/database/storage/fstree"
@@ -150,8 +154,18 @@ func runWriter(specPath string) int {
 		switch spec.Writer {
 		case "fetch":
 			body := content(1)
+			var sigBody []byte
 			ctx, cancel := context.WithCancel(context.Background())
 			srv := httptest.NewServer(http.HandlerFunc(func(w http.ResponseWriter, r *http.Request) {
+				if strings.HasSuffix(r.URL.Path, ".sig") {
+					if sigBody == nil {
+						http.NotFound(w, r)
+						return
+					}
+					w.Header().Set("Content-Length", strconv.Itoa(len(sigBody)))
+					_, _ = w.Write(sigBody)
+					return
+				}
 				switch P["fail"] {
 				case "404":
 					http.NotFound(w, r)
@@ -181,7 +195,32 @@ func runWriter(specPath string) int {
 			defer srv.Close()
 			reg.UpdateURLs = []string{srv.URL}
 			reg.MandatoryUpdates = []string{id}
-			if err := reg.AddResource(id, P["version"], &updater.Index{AutoDownload: true}, false, true, false); err != nil {
+			if P["signed"] == "1" {
+				sigBody = content(2)
+				sb, err := os.ReadFile(filepath.Join(spec.Meta, "signet.json"))
+				if err != nil {
+					fmt.Println("writer: signet:", err)
+					return 3
+				}
+				rcpt := &jess.Signet{}
+				if err := json.Unmarshal(sb, rcpt); err != nil {
+					fmt.Println("writer: signet:", err)
+					return 3
+				}
+				if err := rcpt.LoadKey(); err != nil {
+					fmt.Println("writer: signet key:", err)
+					return 3
+				}
+				ts := jess.NewMemTrustStore()
+				if err := ts.StoreSignet(rcpt); err != nil {
+					fmt.Println("writer: trust store:", err)
+					return 3
+				}
+				reg.Verification = map[string]*updater.VerificationOptions{
+					"": {TrustStore: ts, DownloadPolicy: updater.SignaturePolicyRequire, DiskLoadPolicy: updater.SignaturePolicyRequire},
+				}
+			}
+			if err := reg.AddResource(id, P["version"], &updater.Index{AutoDownload: true}, P["have"] == "1", true, false); err != nil {
 				fmt.Println("writer: add resource:", err)
 				return 3
 			}
